@@ -218,7 +218,7 @@ def job(kind, *args):
 
 def jobs(tier, seed):
     out = []
-    for ng in (1, 2) if tier == "quick" else (1, 2, 3):
+    for ng in (1, 2) if tier == "quick" else (1, 2, 3, 4):
         for refmode in ("xyz", "zero", "grid"):
             out.append(H.Job("rbgeom-%d-%s" % (ng, refmode), job, "rbgeom", ng, refmode, weight=10 * ng))
     for qi in range(len(QUATS)):
